@@ -1,7 +1,7 @@
 import RotondaModel.Model.VribQuery
 /-! Line driver for `Model/VribQuery.lean`. One case per input line (formats: see
 `harness/src/bin/vribquery.rs`), one output line per case. Parsing / printing glue, unverified.
-Arguments: `reprocess=as-written|repaired clientgone=as-written|repaired sortscope=as-written|repaired`. -/
+Arguments: `reprocess=as-written|repaired clientgone=as-written|repaired sortscope=as-written|repaired listing=as-observed|contract`. -/
 open Rotonda.VribQuery
 open Rotonda.RibQuery (Str Prefix Fam Rec Store Rib Limits Url parseQuery)
 
@@ -137,7 +137,7 @@ def parseVReq (k : Nat) (s : String) : Option VReq :=
     | _ => none
   | _ => none
 
-def runLine (vv : VVariant) (sv : SortVariant) (line : String) : String :=
+def runLine (vv : VVariant) (sv : SortVariant) (lv : ListVariant) (line : String) : String :=
   match line.splitOn "|" with
   | ["C", a, b] =>
     match parseOne a, parseOne b with
@@ -161,17 +161,18 @@ def runLine (vv : VVariant) (sv : SortVariant) (line : String) : String :=
         let o (x : Option (List Nat)) := match x with | some x => showIdx x | none => "-"
         s!"200 D{showIdx d} L{o l} M{o m}"
     | _, _, _, _ => "parse-error"
-  | ["G", phys, text, recs, wd] =>
-    match parseList parseRec ";" recs, parseList (·.toNat?) "," wd with
-    | some recs, some wd =>
+  | ["G", phys, text, recs, wd, obs] =>
+    match parseList parseRec ";" recs, parseList (·.toNat?) "," wd, parseList parsePrefix "," (obs.drop 1).toString with
+    | some recs, some wd, some obs =>
       let store (mc : Bool) : Store := { recs := (recs.filter (·.1 == mc)).map (·.2), wd := wd }
       let rib : Rib := ⟨store false, store true⟩
-      match handleListing (phys == "1") rib (unhex text.toList) with
+      match handleListing lv (phys == "1") rib (unhex text.toList) obs with
       | .badRequest => "400"
       | .ok routes =>
-        let items := routes.map fun (p, a) => s!"{showPrefix p}:{a}"
-        "200 [" ++ " ".intercalate (items.toArray.qsort (· < ·)).toList ++ "]"
-    | _, _ => "parse-error"
+        let key (x : Prefix × Nat) : List Nat := [match x.1.fam with | .v4 => 4 | .v6 => 6, x.1.len, x.1.bits, x.2]
+        let sorted := (routes.toArray.qsort fun a b => key a < key b).toList
+        "200 [" ++ " ".intercalate (sorted.map fun (p, a) => s!"{showPrefix p}:{a}") ++ "]"
+    | _, _, _ => "parse-error"
   | ["V", cfg, _ann, qs] =>
     match cfg.splitOn "." with
     | [k, _vr] =>
@@ -184,14 +185,15 @@ def runLine (vv : VVariant) (sv : SortVariant) (line : String) : String :=
 def flag (args : List String) (name : String) : Bool :=
   args.contains s!"{name}=repaired"
 
-partial def loop (vv : VVariant) (sv : SortVariant) (h : IO.FS.Stream) (out : IO.FS.Stream) : IO Unit := do
+partial def loop (vv : VVariant) (sv : SortVariant) (lv : ListVariant) (h : IO.FS.Stream) (out : IO.FS.Stream) : IO Unit := do
   let line ← h.getLine
   if line.isEmpty then return
   let l := line.trimAscii.toString
-  if !l.isEmpty then out.putStrLn (runLine vv sv l)
-  loop vv sv h out
+  if !l.isEmpty then out.putStrLn (runLine vv sv lv l)
+  loop vv sv lv h out
 
 def main (args : List String) : IO Unit := do
   let vv : VVariant := ⟨flag args "reprocess", flag args "clientgone"⟩
   let sv : SortVariant := ⟨flag args "sortscope"⟩
-  loop vv sv (← IO.getStdin) (← IO.getStdout)
+  let lv : ListVariant := ⟨args.contains "listing=contract"⟩
+  loop vv sv lv (← IO.getStdin) (← IO.getStdout)
